@@ -484,6 +484,12 @@ ssize_t sim_read(int fd, void *buf, size_t n) {
 		int e = sim_fault("qread");
 		if (e) { sim_probe("fault.qread"); sim_hash_u64(0x4ead0 + (uint64_t)e); errno = e; return -1; }
 	}
+	if (!r || r->kind == FDK_NONE) {
+		/* a descriptor the simulation does not know (stale / zeroed): never touch the real process' descriptors */
+		sim_probe("read.unknown_fd");
+		sim_log("read(%d): not an open descriptor of the simulation -> EBADF", fd);
+		errno = EBADF; return -1;
+	}
 	rd = read(fd, buf, n);
 	err = errno;
 	if (r && r->kind == FDK_TIMER && rd == 8) {
@@ -535,6 +541,7 @@ int sim_close(int fd) {
 	int kind, rc, err;
 	sim_yield("close");
 	if (fd < 0) { sim_probe("close.negative_fd"); errno = EBADF; return -1; } /* harmless: close(-1) on an error path */
+	if ((!r || r->kind == FDK_NONE) && sim_knobs.tolerate_bad_close) { sim_probe("close.unknown_fd_tolerated"); errno = EBADF; return -1; }
 	if (!r || r->kind == FDK_NONE) {
 		sim_violation("close-bad-fd", "library closed descriptor %d which is not open in the ledger (double close or stale/zeroed descriptor)", fd);
 		errno = EBADF; return -1;
